@@ -166,6 +166,7 @@ let model_conc toks =
     let keys = Array.of_list (List.map int_of_string keys) in
     let chain_key i = keys.(i mod Array.length keys) in
     (* one model thread per use; its key as the harness computes it *)
+    if mode = 4 then Printf.sprintf "MEMO-UNHASHABLE uses=%d calls=%d" (ng * nuses) (ng * nuses) else
     let uses = List.concat (List.init ng (fun g -> List.init nuses (fun u ->
       let k = if mode = 2 then chain_key ((g + u) mod nchains) else keys.(g * nuses + u) in
       if mode = 3 then min k 3 else k))) in
